@@ -1535,7 +1535,7 @@ class nx_learn_dst_load (nx_learn_spec_dst):
     self.data = data
 
   def __len__ (self):
-    return ((self.n_bits+15) // 16) * 2
+    return 6
 
 
 class nx_learn_dst_output (nx_learn_spec_dst):
